@@ -143,7 +143,7 @@ class Registry:
     def static(self, name, fn, props=()):
         self.statics[name] = (fn, list(props))
 
-    def declare_class(self, name, inv=None, make=None, gen=None, ghost=None, **fields):
+    def declare_class(self, name, /, inv=None, make=None, gen=None, ghost=None, **fields):
         self.classes[name] = ClassDecl(name, fields, inv, make, gen, ghost)
 
     def spec(self, name, smt, native, doc=""):
@@ -334,6 +334,7 @@ def verify_contract(reg: Registry, c: Contract, opts=None):
             _run_one(reg, I, c, fn, info, cases[ci])
             if path.final_cover():
                 res["covers"] += 1
+                opts["have_cover"] = True
         except Infeasible:
             pass
         except PathEnd:
